@@ -349,7 +349,7 @@ func TestVerifK8sRecDeliver(t *testing.T) {
 			t.Fatal(err)
 		}
 		cl := fake.NewClientBuilder().WithScheme(scheme).Build()
-		rec := &FRRK8sReconciler{Client: cl, Logger: log.NewNopLogger(), LogLevel: logging.LevelInfo, Scheme: scheme, NodeName: node,
+		rec := &FRRK8sReconciler{Client: cl, Logger: log.NewNopLogger(), LogLevel: lvl, Scheme: scheme, NodeName: node,
 			FRRK8sNamespace: ns, configChangedChan: make(chan struct{}), reconcileChan: make(chan event.GenericEvent)}
 		debouncer(rec.configChangedChan, rec.reconcileChan, interval)
 		sm := frrk8s.NewSessionManager(log.NewNopLogger(), lvl, node, ns)
@@ -468,6 +468,30 @@ func TestVerifK8sRecDeliver(t *testing.T) {
 					break
 				}
 				time.Sleep(2 * time.Millisecond)
+			}
+			// "the last successfully applied configuration equals the most recently submitted one" must keep holding
+			// when the reconciler runs again with NO new submission: the watch event of the object it has just written,
+			// a requeue, and the repair of an external modification of the resource
+			if got == want {
+				for step, what := range []string{"a second Reconcile (watch event of the object just written)", "an external modification of the resource + Reconcile", "a further Reconcile"} {
+					if step == 1 {
+						cur := frrv1beta1.FRRConfiguration{}
+						if err := cl.Get(context.TODO(), key, &cur); err == nil {
+							cur.Spec.BGP.Routers = nil
+							cur.Spec.BGP.BFDProfiles = nil
+							_ = cl.Update(context.TODO(), &cur)
+						}
+					}
+					_, rerr := rec.Reconcile(context.TODO(), ctrl.Request{NamespacedName: key})
+					cur := frrv1beta1.FRRConfiguration{}
+					_ = cl.Get(context.TODO(), key, &cur)
+					out.Stat("deliver_extra_reconciles", 1)
+					if again := vRecSpecJSON(&cur); rerr != nil || again != want {
+						out.Fail("k8s-applied-drifts-without-submission", fmt.Sprintf("run %d (session manager and reconciler at debug level: %v): after %s, with no new submission, the FRRConfiguration in the API is no longer the one the session manager produced (Reconcile error: %v)",
+							id, debug, what, rerr), map[string]any{"sessions": ss, "in_api": json.RawMessage(again), "produced": json.RawMessage(want)})
+						break
+					}
+				}
 			}
 			if got != want {
 				out.Fail("k8s-produced-not-delivered", fmt.Sprintf("run %d: 3 s after the last session update the FRRConfiguration in the API is not the one the session manager produced (consumer started late: %v)", id, startLate),
